@@ -24,7 +24,7 @@ from datetime import datetime, timezone
 from pathlib import Path
 from typing import Any, Dict, List, Optional, Tuple
 
-from harness.core import Component, Ctx, run_component, Infra, _canon, first_diff
+from harness.core import Component, Ctx, run_component, Infra, _canon, first_diff, b2f
 
 RULE = ("refl.text: ASCII strings over a whitespace/punctuation/case-heavy alphabet (exact) + a unicode stream (spec level); "
         "refl.turn: histories of 1-4 real run_turn calls with per-turn gate flags, backend, limits/caps (0, null, negative), "
@@ -37,6 +37,8 @@ ASSUMPTIONS = [
     "the duration of reflect() is a clock oracle (time.perf_counter is scripted; elapsed > budget is compared in integer microseconds)",
     "scheduler slices (early yield returns) are off in the generated turns: a yielded turn returns before the tail and is not modelled here",
     "the embedding vector's values are not compared (presence only)",
+    "LLM-planner histories drive the planner through select_policy -> run_policy on the turn's real config (t3_pipeline's bundle carries a config snapshot without t3.backend, so it never selects the llm policy) with a state that accepts setattr (dict with attribute access); every unusable planner output (no fixture line, invalid JSON, schema violation, fixture file gone) is the model's `fallback`",
+    "T2 is a scripted stage (own hits + scores, not score-descending in general); the T2 record is observed as the result objects themselves (the turn-level cache holds them by reference), deep-compared with their state when T2 returned them and with the reflection-off run",
     "the ctx's logical clock is modelled for now_ms in {int, None} and ctx.now_iso absent / caller string / caller non-string (run_turn's head derives now_iso once from an int now_ms; the writer prefers a string now_iso, else its epoch fallback of now_ms; now_ms=None makes int() raise inside the writer and the tail swallows it: nothing written); float / negative now_ms are not generated",
     "ctx accepts setattr (SimpleNamespace / TurnCtx), state is a dict",
     "every turn of a history gets a distinct input text, so the orchestrator's turn-level T2 cache keyed on (version, text) — C05's subject — does not replay an earlier turn's retrieval into the snippets",
@@ -103,6 +105,17 @@ def gen_text(rng: random.Random, unicode: bool = False, maxw: int = 9) -> str:
 def dec(x: Any) -> str:
     """driver strings come back as code-point arrays"""
     return "".join(chr(c) for c in x) if isinstance(x, list) else x
+
+
+def _defloat(x: Any) -> Any:
+    """replay files store floats as {"f": "<ieee bits>"} (core._canon): turn them back into floats"""
+    if isinstance(x, dict):
+        if set(x.keys()) == {"f"} and isinstance(x["f"], str) and x["f"].isdigit():
+            return b2f(x["f"])
+        return {k: _defloat(v) for k, v in x.items()}
+    if isinstance(x, list):
+        return [_defloat(v) for v in x]
+    return x
 
 
 def _is_ascii(s: str) -> bool:
@@ -253,7 +266,7 @@ def fixture_key(agent: str, plan_flag: bool, snips: List[str], limit: int, turn:
 
 class TurnComp(Component):
     name = "refl.turn"
-    budget = {"quick": 500, "thorough": 6000, "search": 1500}
+    budget = {"quick": 400, "thorough": 6000, "search": 1500}
     scratch: Optional[Path] = None
     _cfg_cache: Dict[str, dict] = {}
 
@@ -312,6 +325,9 @@ class TurnComp(Component):
              "utter": gen_text(rng, uni),
              "items": [gen_text(rng, uni, 5) if rng.random() < 0.8 else "" for _ in range(rng.choice([0, 1, 2, 3, 4, 6]))],
              "arts": [gen_text(rng, uni, 3) for _ in range(rng.choice([0, 0, 0, 2]))]}
+        # T2 hit scores: NOT score-descending in general (recency/importance-weighted ranking, hybrid re-rank, MMR and
+        # stage overrides all produce such lists), with ties, negative and huge values
+        t["scores"] = [rng.choice([0.5, 0.5, 0.1, 0.9, 0.0, -1.0, 0.25, 1e9, 0.75]) for _ in t["items"]]
         if wp is not None:
             t.update({"dry": False, "plan": True})
             t["cfg"].update({"allow": True, "opsCap": wp["cap"], "wallMs": None})
@@ -393,9 +409,39 @@ class TurnComp(Component):
                     rec["o"]["adapter"] = {"text": rng.choice(["the agent agreed to ship", "Recap: two open items.", "ok"])}
                 else:
                     rec["o"]["adapter"] = rng.choice(["initfail", "missing", "missing"])
+        planner = False
+        if not shared_fx and rng.random() < 0.14:
+            # LLM-planner histories: one long-lived attribute-style state; before each turn the planner entry point
+            # (select_policy -> run_policy) runs against a fixture file and is the ONLY writer of
+            # state._planner_reflection_flag.  Planner outcomes per turn: valid answers (reflection true/false) and every
+            # way the output can be unusable (no fixture line, invalid JSON, schema violation, fixture file gone) or the
+            # planner not running at all.
+            planner = True
+            if len(turns) < 2:
+                turns.append(self.gen_turn(rng, uni, backend, 1))
+            kinds = ["answer_true", "answer_true", "answer_false", "missing", "invalid_json", "invalid_schema", "nofile", None]
+            for j, rec in enumerate(turns):
+                rec["t"]["planner"] = "answer_true" if (j == 0 and rng.random() < 0.7) else rng.choice(kinds)
+                rec["t"]["sflag"] = False
+                rec["t"]["plan"] = rng.random() < 0.15      # the Plan object carries no flag on the LLM path
+                rec["t"]["cfg"].update({"backend": "rulebased", "fxEnabled": True, "fxPathOk": True})
+                if rng.random() < 0.7:
+                    rec["t"].update({"dry": False})
+                    rec["t"]["cfg"].update({"allow": True, "opsCap": rng.choice([1, 2, 5])})
+                    rec["o"].update({"mode": "real", "runFault": False, "indexMissing": False, "writeFault": False, "addFail": []})
+        repeat_text = False
+        if not planner and len(turns) >= 2 and rng.random() < 0.15:
+            # the same input text on every turn with T4 off (stable version etag): later turns are served the T2 result
+            # object the orchestrator cached on the first one
+            repeat_text = True
+            for rec in turns:
+                rec["t"]["t4on"] = False
+                rec["t"]["items"] = list(turns[0]["t"]["items"])
+                rec["t"]["scores"] = list(turns[0]["t"]["scores"])
         boundary = iso is not None or any(r["t"]["nowMs"] in (0, None, 1) for r in turns)
         return {"agent": rng.choice(["a1", "Ambrose", "ag-2", "X"]), "reuse": reuse, "uni": uni, "turns": turns,
-                "iso": iso, "shared_fx": shared_fx, "det": boundary or shared_fx or rng.random() < 0.3}
+                "iso": iso, "shared_fx": shared_fx, "planner": planner, "repeat_text": repeat_text,
+                "det": boundary or shared_fx or rng.random() < 0.3}
 
     # ---- driving the real code ----------------------------------------------------------------------------
     def _validated(self, over: dict) -> dict:
@@ -410,15 +456,19 @@ class TurnComp(Component):
     def _cfg_over(self, t: dict, fx_path: Optional[str], allow_override: Optional[bool]) -> dict:
         c = t["cfg"]
         budgets: Dict[str, Any] = {"ops_reflection": c["opsCap"], "time_ms_reflection": c["wallMs"]}
-        return {"t3": {"allow_reflection": c["allow"] if allow_override is None else allow_override,
+        extra = {"backend": "llm"} if "planner" in t else {}
+        return {"t3": {**extra, "allow_reflection": c["allow"] if allow_override is None else allow_override,
                        "reflection": {"backend": c["backend"], "topk_snippets": c["topk"], "summary_tokens": c["limit"],
                                       "embed": c["embed"]},
-                       "llm": {"fixtures": {"enabled": c["fxEnabled"], "path": fx_path}}},
+                       "llm": {**({"provider": "fixture"} if "planner" in t else {}),
+                               "fixtures": {"enabled": c["fxEnabled"], "path": fx_path}}},
                 "t4": {"enabled": t["t4on"]},
                 "scheduler": {"budgets": budgets}}
 
     @staticmethod
     def _fx_path(root: str, ti: int, t: dict, o: dict, shared: bool = False) -> Optional[str]:
+        if "planner" in t:
+            return f"{root}/planner.jsonl"
         if t["cfg"]["fxPathOk"] and shared:
             return f"{root}/fx_shared.jsonl"      # one path for the whole history; its CONTENT changes between turns
         if t["cfg"]["fxPathOk"]:
@@ -455,9 +505,13 @@ class TurnComp(Component):
               "_bad_limit": limit is None}   # raises inside reflect() -> reflect_error:ValueError
         return plain, mc
 
-    def run_history(self, case: dict, variant: str) -> List[dict]:
+    def run_history(self, case: dict, variant: str, on_ref: Optional[List[dict]] = None) -> List[dict]:
         """variant: 'on' (as generated) | 'off' (allow_reflection forced false) | 'perturb' (other reflect duration,
-        same side of the budget)."""
+        same side of the budget).
+        The 'off' run is the isolation reference for EACH turn t: turn t runs with reflection off from the same
+        pre-state as turn t of the 'on' run.  Reflection's one documented output is the memory index (entries become
+        retrievable on later turns and move index_version(), which the turn-level T2 cache key digests), so after every
+        turn the entries the 'on' run wrote in that turn (`on_ref`) are added to the reference's index as well."""
         from harness.lib import turnrig as TR
         if self.scratch is None:
             raise Infra("TurnComp.scratch not set")
@@ -485,8 +539,24 @@ class TurnComp(Component):
 
         agent = case["agent"]
         w = TR.build_world(root / "w", {"agent": agent, "episodes": [], "boot_loaded": True})
+        if case.get("planner"):
+            w.state = TR.AttrDict(w.state)     # long-lived state that accepts setattr (what run_policy writes to)
         idx = ScriptedIndex()
         w.state["mem_index"] = idx
+        t2_objs: List[Tuple[Any, Any]] = []    # every T2 result object produced in this history + its snapshot at birth
+
+        def t2_snap(obj) -> list:
+            return [[getattr(r, "id", None), getattr(r, "score", None), getattr(r, "text", None)] if not isinstance(r, dict)
+                    else [r.get("id"), r.get("score"), r.get("text")] for r in (getattr(obj, "retrieved", None) or [])]
+
+        def my_t2(ctx, state, text, t1):
+            tt = cur["t"]
+            scores = tt.get("scores") or [0.5] * len(tt["items"])
+            obj = TR._make_ret("t2", {"retrieved": [{"id": f"e{k}", "text": (s if s != "" else None), "score": float(sc)}
+                                                      for k, (s, sc) in enumerate(zip(tt["items"], scores))],
+                                      "metrics": {"k_returned": len(tt["items"]), "k_used": len(tt["items"])}})
+            t2_objs.append((obj, t2_snap(obj)))
+            return obj
         clk = [0.0]
         calls = {"reflect": 0}
         cur: Dict[str, Any] = {}
@@ -542,6 +612,8 @@ class TurnComp(Component):
             _dtmod.datetime = FakeDT
             _time.perf_counter = lambda: clk[0]
             setattr(orch, "reflect", my_reflect)
+            prev_t2 = vars(orch).get("t2_semantic", _ABSENT)
+            setattr(orch, "t2_semantic", my_t2)
             for ti, rec in enumerate(case["turns"]):
                 t, o = rec["t"], rec["o"]
                 el = int(o["elapsedUs"])
@@ -553,7 +625,7 @@ class TurnComp(Component):
                         el = el + 1234
                     else:
                         el = (el * 7 + 3) % (wall * 1000 + 1)
-                cur.clear(); cur.update({"o": o, "el": el})
+                cur.clear(); cur.update({"o": o, "el": el, "t": t})
                 clk[0] = 0.0
                 calls["reflect"] = 0
                 # fixtures for the llm backend
@@ -612,7 +684,38 @@ class TurnComp(Component):
                 isov = iso_attr_value(case.get("iso"))
                 if isov is not _ABSENT:
                     w.spec["ctx_extra"]["now_iso"] = isov
-                if t["sflag"]:
+                planner_note = None
+                if case.get("planner"):
+                    # the planner step of this turn (select_policy -> run_policy); the harness never touches the flag
+                    kind = t.get("planner")
+                    if kind is not None:
+                        pol = importlib.import_module("clematis.engine.stages.t3.policy")
+                        L2 = importlib.import_module("clematis.adapters.llm")
+                        pctx = make_ctx(w, t["turn_id"])
+                        pfile = Path(fx_path)
+                        if kind == "nofile":
+                            if pfile.exists():
+                                pfile.unlink()
+                        else:
+                            comp = {"answer_true": json.dumps({"plan": ["think"], "rationale": "r", "reflection": True}),
+                                    "answer_false": json.dumps({"plan": ["rest"], "rationale": "r", "reflection": False}),
+                                    "invalid_json": "{not json",
+                                    "invalid_schema": json.dumps({"plan": "not-a-list", "reflection": "maybe"})}.get(kind)
+                            lines = [json.dumps({"prompt_hash": "0" * 64, "completion": "unrelated"})]
+                            if comp is not None:
+                                lines.append(json.dumps({"prompt_hash": L2._prompt_hash(pol.make_planner_prompt(pctx)),
+                                                         "completion": comp}))
+                            pfile.write_text("\n".join(lines) + "\n", encoding="utf-8")
+                        with TR._env(w):
+                            try:
+                                # t3_pipeline's bundle carries only a config snapshot without t3.backend, so the LLM
+                                # policy is selected on the turn's real config, as a driver of the planner does
+                                handle = pol.select_policy(w.cfg_plain, pctx)
+                                pol.run_policy(handle, {"cfg": w.cfg_plain}, w.cfg_plain, pctx, state=w.state)
+                                planner_note = "ran:" + str(handle.get("name"))
+                            except Exception as e:   # the planner entry point itself must not raise on unusable output
+                                planner_note = f"raised:{type(e).__name__}"
+                elif t["sflag"]:
                     w.state["_planner_reflection_flag"] = True
                 else:
                     w.state.pop("_planner_reflection_flag", None)
@@ -624,9 +727,7 @@ class TurnComp(Component):
                 idx.calls, idx.ok_pos = 0, []
                 n0 = len(idx._eps)
                 beh = {"t1": TR.stub({"metrics": {"pops": 1, "iters": 1, "graphs_touched": 1}}),
-                       "t2": TR.stub({"retrieved": [{"id": f"e{k}", "text": (s if s != "" else None), "score": 0.5}
-                                                    for k, s in enumerate(t["items"])],
-                                      "metrics": {"k_returned": len(t["items"]), "k_used": len(t["items"])}}),
+                       "t2": {"mode": "real"},     # our own T2 stage (installed on the package): scripted hits + scores
                        "deliberate": TR.stub({"reflection": bool(t["plan"]), "ops": []}),
                        "dialogue": TR.stub({"utter": t["utter"]}),
                        "t4": TR.stub({"approved": [], "metrics": {}})}
@@ -643,7 +744,9 @@ class TurnComp(Component):
                         return _real(path, payload)
                     olog.append_jsonl = bad_append
                 try:
-                    run = TR.run_turn(w, f"hi there {ti}", t["turn_id"], beh)   # distinct text: see ASSUMPTIONS (turn-level T2 cache)
+                    text_in = "hi there 0" if case.get("repeat_text") else f"hi there {ti}"   # distinct text: see ASSUMPTIONS
+                    n_t2 = len(t2_objs)
+                    run = TR.run_turn(w, text_in, t["turn_id"], beh)
                 finally:
                     olog.append_jsonl = real_append
                 new = idx._eps[n0:]
@@ -661,11 +764,28 @@ class TurnComp(Component):
                              "rfile": run.files.get("t3_reflection", []),
                              "result": run.result, "raised": run.raised, "other_logs": logs,
                              "etag": run.state.get("version_etag"), "store_w": run.state.get("store_w"),
-                             "stash_is_none": getattr(w.last_ctx, "_reflection_result", None) is None})
+                             "stash_is_none": getattr(w.last_ctx, "_reflection_result", None) is None,
+                             "planner_note": planner_note, "t2_cache_hit": len(t2_objs) == n_t2,
+                             "flag_after": bool(w.state.get("_planner_reflection_flag", False)),
+                             # the T2 record: every T2 result object of this history (the orchestrator's turn-level cache
+                             # holds them by reference and serves them on later turns) now vs. when T2 produced it
+                             "t2_birth": [copy.deepcopy(b) for _o, b in t2_objs],
+                             "t2_now": [t2_snap(ob) for ob, _b in t2_objs],
+                             "_eps": list(new)})
+                if variant == "off" and on_ref is not None and ti < len(on_ref):
+                    for e in on_ref[ti].get("_eps", []):
+                        InMemoryIndex.add(idx, copy.deepcopy(e))      # same memory pre-state for the next turn
         except TR.RigError as e:
             raise Infra(f"rig error: {e}")
         finally:
             TR.make_ctx = real_make
+            try:
+                if prev_t2 is _ABSENT:
+                    delattr(orch, "t2_semantic")
+                else:
+                    setattr(orch, "t2_semantic", prev_t2)
+            except Exception:
+                pass
             _dtmod.datetime = real_dt
             _time.perf_counter = real_pc
             olog.append_jsonl = real_append
@@ -691,11 +811,15 @@ class TurnComp(Component):
         return [R._normalize(s, keep_punct=True) for s in sn[:k]]
 
     def impl(self, case: dict) -> Any:
+        case = _defloat(case)
         on = self.run_history(case, "on")
-        off = self.run_history(case, "off")
+        off = self.run_history(case, "off", on)
         out = {"on": on, "off": off}
         if case.get("det"):
             out["perturb"] = self.run_history(case, "perturb")
+        for rows in out.values():
+            for x in rows:
+                x.pop("_eps", None)
         return out
 
     # ---- model request / comparison ---------------------------------------------------------------------
@@ -739,10 +863,25 @@ class TurnComp(Component):
         return {"t": t, "o": o}
 
     def request(self, case: dict) -> dict:
+        case = _defloat(case)
         turns = [self.model_turn(case, r, i) for i, r in enumerate(case["turns"])]
         if case.get("uni") and not _is_ascii(json.dumps(case, ensure_ascii=False)):
             turns = [self.abstract_unicode(m) for m in turns]
-        return {"c": "refl.hist", "clear": True, "reuse": case["reuse"], "turns": turns}
+        if case.get("planner"):
+            for m, rec in zip(turns, case["turns"]):
+                m["p"] = self.planner_model(rec["t"].get("planner"))
+        return {"c": "refl.hist", "clear": True, "reuse": case["reuse"], "planner": bool(case.get("planner")), "turns": turns}
+
+    @staticmethod
+    def planner_model(kind: Optional[str]):
+        """harness planner script -> the model's PlannerOut: a validated answer, or the fallback dict (every unusable output)"""
+        if kind is None:
+            return None
+        if kind == "answer_true":
+            return {"answer": True}
+        if kind == "answer_false":
+            return {"answer": False}
+        return "fallback"
 
     def _canon_impl(self, case: dict, io: dict) -> List[dict]:
         out = []
@@ -783,6 +922,7 @@ class TurnComp(Component):
         return out
 
     def compare(self, case, impl_out, model_out):
+        case = _defloat(case)
         if isinstance(impl_out, dict) and "__raised__" in impl_out:
             return f"harness/implementation raised {impl_out}"
         a = self._canon_impl(case, impl_out)
@@ -808,7 +948,16 @@ class TurnComp(Component):
 
     # ---- monitors ---------------------------------------------------------------------------------------
     def monitor_requests(self, case, impl_out):
+        case = _defloat(case)
         rq = []
+        pl = bool(case.get("planner"))
+        if pl:
+            tp = []
+            for i, (rec, x) in enumerate(zip(case["turns"], impl_out["on"])):
+                m = self.abstract_unicode(self.model_turn(case, rec, i))
+                tp.append({"t": m["t"], "p": self.planner_model(rec["t"].get("planner")), "called": x["called"],
+                           "nWritten": len(x["written"]), "logged": bool(x["rlog"]) or bool(x["rfile"])})
+            rq.append(("gate_planner", {"c": "refl.mon.planner", "turns": tp}))
         for i, (rec, x) in enumerate(zip(case["turns"], impl_out["on"])):
             m = self.model_turn(case, rec, i)
             texts = [e["text"] for e in x["written"] if isinstance(e["text"], str) and _is_ascii(e["text"])]
@@ -820,13 +969,16 @@ class TurnComp(Component):
                 base["t"], base["o"] = ab["t"], ab["o"]
                 base["texts"] = []
                 for name in ("gate", "cap", "failsoft"):
-                    rq.append((name, dict(base, c=f"refl.mon.{name}")))
+                    if not (pl and name == "gate"):
+                        rq.append((name, dict(base, c=f"refl.mon.{name}")))
                 continue
             for name in ("gate", "cap", "failsoft", "len"):
-                rq.append((name, dict(base, c=f"refl.mon.{name}")))
+                if not (pl and name == "gate"):
+                    rq.append((name, dict(base, c=f"refl.mon.{name}")))
         return rq
 
     def monitors(self, case, impl_out):
+        case = _defloat(case)
         res: List[Tuple[str, bool, str]] = []
         on, off = impl_out["on"], impl_out["off"]
         attr: Any = _ABSENT          # ctx.now_iso as the turn sees it after run_turn's head
@@ -876,12 +1028,20 @@ class TurnComp(Component):
                             f"turn {i}: entry shape {e}"))
             if len(x["rlog"]) > 1:
                 res.append(("one_log_line", False, f"turn {i}: {len(x['rlog'])} t3_reflection records"))
+        for i, x in enumerate(on):
+            if x.get("t2_now") != x.get("t2_birth"):
+                k = next(j for j, (a, b) in enumerate(zip(x["t2_now"], x["t2_birth"])) if a != b)
+                res.append(("t2_record_unaltered", False,
+                            f"turn {i}: the T2 result object produced for T2 call #{k} (held by the turn-level cache) was altered: "
+                            f"retrieved was {x['t2_birth'][k]} when T2 returned it, is {x['t2_now'][k]} after this turn"))
+            if str(x.get("planner_note") or "").startswith("raised"):
+                res.append(("planner_completes", False, f"turn {i}: run_policy {x['planner_note']}"))
         # isolation: same history with reflection off
         for i, (x, y) in enumerate(zip(on, off)):
             same = (x["result"] == y["result"] and x["raised"] == y["raised"] and x["other_logs"] == y["other_logs"]
-                    and x["etag"] == y["etag"] and x["store_w"] == y["store_w"])
+                    and x["etag"] == y["etag"] and x["store_w"] == y["store_w"] and x.get("t2_now") == y.get("t2_now"))
             if not same:
-                diff = [k for k in ("result", "raised", "etag", "store_w") if x[k] != y[k]]
+                diff = [k for k in ("result", "raised", "etag", "store_w", "t2_now") if x.get(k) != y.get(k)]
                 diff += [f"log:{s}" for s in sorted(set(x["other_logs"]) | set(y["other_logs"]))
                          if x["other_logs"].get(s) != y["other_logs"].get(s)]
                 res.append(("isolation", False, f"turn {i}: differs from the reflection-off run in {diff}"))
@@ -893,12 +1053,13 @@ class TurnComp(Component):
                 if x["written"] != z["written"] or x["rlog"] != z["rlog"]:
                     res.append(("clock_indep", False, f"turn {i}: ids/ts/records differ between two runs of the same history under different wall clocks / reflect durations"))
         # summarise: one positive entry per monitor name so that evidence shows they ran
-        names = {"turn_completes", "id_pure", "id_pure_slot", "summary_len_py", "ts_logical", "entry_shape", "one_log_line", "isolation",
+        names = {"turn_completes", "t2_record_unaltered", "planner_completes", "id_pure", "id_pure_slot", "summary_len_py", "ts_logical", "entry_shape", "one_log_line", "isolation",
                  "off_is_off", "clock_indep"}
         failed = {n for n, ok, _ in res if not ok}
         return [r for r in res if not r[1]] + [(n, True, "") for n in sorted(names - failed)]
 
     def tags(self, case, impl_out):
+        case = _defloat(case)
         tg = set()
         if case["reuse"]:
             tg.add("reuse_ctx")
@@ -906,6 +1067,20 @@ class TurnComp(Component):
             tg.add("unicode")
         if case.get("iso") is not None:
             tg.add("clock:now_iso_" + ("string" if "lit" in case["iso"] else "nonstring"))
+        if case.get("planner"):
+            ks = [str(r["t"].get("planner")) for r in case["turns"]]
+            tg.add("planner:history")
+            for a, b in zip(ks, ks[1:]):
+                tg.add(f"planner:{a}->{'fallback' if b in ('missing', 'invalid_json', 'invalid_schema', 'nofile') else b}")
+        if case.get("repeat_text"):
+            tg.add("t2cache:repeat_text")
+            if any(x.get("t2_cache_hit") for x in impl_out["on"][1:]):
+                tg.add("t2cache:hit_on_later_turn")
+        for r in case["turns"]:
+            sc = [v for v, it in zip(r["t"].get("scores") or [], r["t"]["items"])]
+            if any(a < b for a, b in zip(sc, sc[1:])):
+                tg.add("t2:not_score_descending")
+                break
         if case.get("shared_fx"):
             tg.add("fx:shared_path")
             ads = [("text" if isinstance(r["o"]["adapter"], dict) else r["o"]["adapter"]) for r in case["turns"]]
